@@ -204,6 +204,9 @@ def d5(ctx):
             ok_e = bool(st) and all(s["seq"] < ws[0]["seq"] for s in st)
         yield Ob(key_of("C20-D5", b.path, "increment-after-unlink"), ok_e, "accounted only after the head was unlinked", ctx.loc(ws[0]))
         rets = [r for r in res.log if r["kind"] == "ret0" and not r["chain"]]
+        # (a `return 0` for Freelist::None, when that test sits in this function instead of in its caller, is not a return of the loop)
+        none_rets = [r for r in rets if r["value"] == const(0) and any(f[0] == "discr" and f[1] == field(SELF, "freelist") and f[2] == ("eq", 0) for f in ctx.facts_of(ev, r))]
+        rets = [r for r in rets if r not in none_rets]
         ok_r = len(rets) == 1
         if ok_r:
             fs = ctx.facts_of(ev, rets[0])
@@ -222,6 +225,14 @@ def d6(ctx):
         if ok:
             fs = ctx.facts_of(ev, calls[0])
             ok = ("bool", field(SELF, "ro"), False) in fs and any(f[0] == "discr" and f[1] == field(SELF, "freelist") and (f[2] == ("ne", (0,)) or (f[2][0] == "eq" and f[2][1] != 0)) for f in fs)
+        if not ok and len(calls) == 1:
+            # the Freelist::None test made inside discard_freelist_in: every effect of the whole operation lies behind `writable` and `kind != None`
+            ev2, res2 = ctx.eval(b, no_inline=tuple(p_ for p_ in NOINLINE if "discard_freelist_in" not in p_))
+            effs = list_effects(res2) + discarded_writes(res2, fl)
+            def guarded(e):
+                fs_ = ctx.facts_of(ev2, e)
+                return ("bool", field(SELF, "ro"), False) in fs_ and any(f[0] == "discr" and f[1] == field(SELF, "freelist") and (f[2] == ("ne", (0,)) or (f[2][0] == "eq" and f[2][1] != 0)) for f in fs_)
+            ok = bool(effs) and all(guarded(e) for e in effs)
         yield Ob(key_of("C20-D6", b.path, "guards"), ok, "discard_freelist_in reached only when writable and the freelist kind is not None", b.loc())
         errs = [r for r in res.log if r["kind"] == "ret0" and not r["chain"] and tag(r["value"]) == "variant" and r["value"][2] == "Err"]
         ok2 = len(errs) == 1 and ("bool", field(SELF, "ro"), True) in ctx.facts_of(ev, errs[0]) and r_is(errs[0]["value"], "ReadOnly")
